@@ -443,17 +443,14 @@ def recItems (L : Lim) : Option Nat → VL → VL × Option LErr
   | b, x :: xs => catS (recV L x) (recItems L (b.map (· - 1)) xs)
 end
 
-/-- the stream one argument of `list(...)` contributes -/
-def listArgL (L : Lim) : ObjL → RL (VL × Option LErr)
+/-- the stream one argument of `list(...)` contributes (an ordering / a context object inside the list is
+    outside the domain: "no prediction" at the point where the consumer gets there) -/
+def listArgL (L : Lim) : ObjL → VL × Option LErr
   | .lazy items err =>
     let s := limitLazy L (items, err)
-    .ok (catS (recItems L none s.1) ([], s.2))
-  | .val v => .ok (recV L v)
-  | _ => .error (.base .outOfDomain)
-
-def listArgsL (L : Lim) : List ObjL → RL (List (VL × Option LErr))
-  | [] => .ok []
-  | o :: os => do let s ← listArgL L o; let r ← listArgsL L os; pure (s :: r)
+    catS (recItems L none s.1) ([], s.2)
+  | .val v => recV L v
+  | _ => ([], some (.base .outOfDomain))
 
 /-! ## sorting -/
 
@@ -539,16 +536,21 @@ def lamManyL (ev : EvL) (D : Ctx) (body : Expr) (x : Value) : RL (VL × Option L
     | some s => pure s
     | none => do let v ← toVL o; pure ([v], none)
 
-/-- the pairs `dict(items)` reads, with the growing dict measured after every insertion -/
+/-- one item of `dict(items)`: `it = iter(t); key = next(it); value = next(it)` -/
+def pairOf (it : Value) : RL (Value × Value) :=
+  match it with
+  | .tuple (k :: v :: _) | .list (k :: v :: _) => .ok (k, v)
+  | .tuple _ | .list _ => .error (.base .stopIteration)
+  | _ => .error (.base .outOfDomain)
+
+/-- the pairs `dict(items)` reads after `acc`, with the growing dict measured after every insertion -/
 def dictItemsL (c : ECfg) (L : Lim) : KV → VL → RL KV
-  | acc, [] => .ok acc.reverse
+  | _, [] => .ok []
   | acc, it :: r => do
-    let p ← (match it with
-      | .tuple (k :: v :: _) | .list (k :: v :: _) => (.ok (k, v) : RL (Value × Value))
-      | .tuple _ | .list _ => .error (.base .stopIteration)
-      | _ => .error (.base .outOfDomain))
-    measure L (plainDictSize c (Seq.dOfPairs (p :: acc).reverse))
-    dictItemsL c L (p :: acc) r
+    let p ← pairOf it
+    measure L (plainDictSize c (Seq.dOfPairs (acc ++ [p])))
+    let rest ← dictItemsL c L (acc ++ [p]) r
+    pure (p :: rest)
 
 /-- the common shape of a method over a collection: the receiver is type-checked when the overload is
     mapped, the other eager arguments are evaluated (`pre`), then the receiver is converted (`Iterable()`:
@@ -748,11 +750,10 @@ def callFnL (c : ECfg) (L : Lim) (ev : EvL) (C : Ctx) (f : Fn) (args : List Expr
     if !kw.isEmpty then .error (.base .outOfDomain)
     else do
       let os ← evalObjsL ev C args
-      let parts ← listArgsL L os
       measureEach L (os.map (objSz c))
       -- `delegate(rec(args))`: the flattened generator is the `Iterable()` argument of `to_list`
       measure L (some (objSzOf c))
-      let xs ← drain (limitLazy L (catStreams parts))
+      let xs ← drain (limitLazy L (catStreams (os.map (listArgL L))))
       pure (.val (.tuple xs))
   | .dict =>
     match args, kw with
